@@ -36,6 +36,18 @@ def big_cases():
     out.append(".blkw xFFFE\nhalt\n")              # 65535: rejected (line counter limit)
     out.append(".blkw xFFFE\n")
     out.append("halt\n" * 70)
+    # long runs of what the lexer SKIPS or swallows whole: no depth of recursion, no quadratic rescanning may hide here
+    out.append("; c\n" * 120000 + "halt\n")
+    out.append("\n" * 200000 + "halt\n")
+    out.append(";" + "x" * 500000 + "\nhalt\n")
+    out.append(" " * 500000 + "halt")
+    out.append("halt ; c\n" * 60000)
+    out.append(", : ,\t" * 80000 + "halt")
+    out.append("a" * 300000 + " halt\n")
+    out.append("x" + "1" * 100000 + "\n")
+    out.append("#" + "9" * 100000 + " halt\n")
+    out.append('.stringz "' + '\\"' * 60000 + '"\nhalt\n')
+    out.append("l" + "\nl".join(str(i) for i in range(30000)) + " halt\n")      # 30,000 labels in a row: rejected (label before label)
     return out
 
 
@@ -85,16 +97,52 @@ def gen_cases(tier, seed):
     return cases, tags
 
 
+def real_binary_sizes(ctx, violations):
+    """The size extremes through the REAL binary under the ordinary 8 MiB stack (the in-process runs have an unlimited one):
+    `lace check` must end with the model's verdict - success or a diagnostic - not with a stack overflow, an abort or a hang."""
+    import os, subprocess
+    import clicommon
+    from props import C06
+    exe = ctx.cli()
+    d = clicommon.fresh_dir(ctx, "c05sizes")
+    texts = big_cases()
+    model = ctx.run_model([C06.obj_case(0, t) for t in texts], tag="c05sizes")
+    def job(i):
+        def run():
+            f = os.path.join(d, "s%d.asm" % i)
+            with open(f, "w", encoding="utf-8", newline="") as fh:
+                fh.write(texts[i])
+            try:
+                p = subprocess.run(["bash", "-c", "ulimit -s 8192; exec \"$0\" check \"$1\"", exe, f], stdout=subprocess.PIPE, stderr=subprocess.PIPE,
+                                   timeout=120, env=dict(os.environ, NO_COLOR="1", RUST_BACKTRACE="0"))
+                return p.returncode, p.stderr[-300:].decode("utf-8", "replace")
+            except subprocess.TimeoutExpired:
+                return -9, "timeout after 120 s"
+        return run
+    res = clicommon.parallel([job(i) for i in range(len(texts))], workers=8)
+    bad = 0
+    for i, (rc, err) in enumerate(res):
+        me = int(model[i][0].split()[0], 16)
+        if rc != me:
+            bad += 1
+            if bad <= 4:
+                violations.append({"kind": "real-binary-size-extreme", "source_head": texts[i][:60], "source_length": len(texts[i]),
+                                   "exit": rc, "model_exit": me, "stderr_tail": err})
+    return {"runs": len(texts), "mismatches": bad, "rule": "`lace check` (binary without hooks, 8 MiB stack) on every size-extreme source: exit status = the model's verdict"}
+
+
 def correspondence(ctx, violations, known_hits):
     cases, tags = gen_cases(ctx.tier, ctx.seed)
     profiles = ("debug",) if ctx.tier == "quick" else ("debug", "release")
     r = asmcommon.run_asm_cases(ctx, cases, tags, violations, profiles, aux=AUX,
                                 prop_note="the model never panics (C05_total); an implementation panic/crash, or a diagnostic whose span lies outside the source, violates C05")
+    real = real_binary_sizes(ctx, violations)
+    r["evaluations"] += real["runs"]
     ctx.cleanup()
     return {
-        "evaluations": r["evaluations"], "distinct_nontrivial": len(r["sigs"]),
+        "evaluations": r["evaluations"], "distinct_nontrivial": len(r["sigs"]), "real_binary_size_extremes": real,
         "rule": "fixed corpus (past panics, edge tokens, NUL, multi-byte characters in every token class, unterminated strings, EVERY PREFIX of six sources (a file may end anywhere), "
-                "lone backslash) + size extremes (.blkw xFFFF repeated, label distances 0x7FFF/0x8000/0x8001, 70k-character "
+                "lone backslash) + size extremes (runs of 10^5 comment lines / blank lines / separators, 500k-character comments and blanks, 300k-character identifiers and literals, .blkw xFFFF repeated, label distances 0x7FFF/0x8000/0x8001, 70k-character "
                 ".stringz, 65,534/65,535 statements) + seeded token-level and byte-level mutants of grammar-derived programs + "
                 "a 2/3/4-byte character at and abutting every token position; every rejection is rendered with miette and its "
                 "labelled spans are checked to lie inside the source; distinct = distinct (class, outcome, diagnostic)",
